@@ -17,7 +17,7 @@ RULE = (
     "histories with faulty references on rich running orders.  Oracle: when the merge does not "
     "raise, the recorded MosRoMgrWarning categories are exactly the model's multiset (one "
     "StoryNotFound/ItemNotFound/DuplicateStory warning per missing/duplicate element) AND the "
-    "resulting state is the model's with every remaining element applied.  Non-trivial = >= 2 named "
+    "resulting state is the model's with every remaining element applied; a step that warned is run again with warnings escalated to errors and must then raise.  Non-trivial = >= 2 named "
     "elements of which a proper non-empty subset is unresolvable/duplicate, or a multi-ID "
     "roElementAction DELETE/MOVE list; distinct = distinct (state text, message text) digests.")
 ASSUMPTIONS = [
@@ -35,7 +35,17 @@ MANDATORY = ['StoryDelete:repeated-id-in-list', 'EAItemDelete:repeated-id-in-lis
 
 
 def judge(ev):
-    return step.judge_reporting(ev.obs, ev.ex, ev.msg, ev.state)
+    fails = step.judge_reporting(ev.obs, ev.ex, ev.msg, ev.state)
+    if ev.obs.exc is None and ev.obs.parse_exc is None and sum(ev.obs.warns.values()) > 0:
+        # the library chose to warn and carry on.  With warnings escalated to errors (python -W error)
+        # the same step must still REPORT: the escalated warning, or a merge error, leaves the merge
+        o2 = step.run_step(ev.obs.before, ev.msg.text, filt='error')
+        if o2.parse_exc is None and o2.exc is None:
+            fails.append(step.Failure(PROP, f'C06|{ev.msg.kind}|silent-under-error-filter',
+                                      f'{ev.msg.kind}: warns {dict(ev.obs.warns)} under the default filter, but '
+                                      "with warnings.simplefilter('error') nothing is raised and nothing is "
+                                      'reported', 'an exception', None))
+    return fails
 
 
 def record(col, ev, extra=()):
@@ -106,7 +116,7 @@ def run(tier, seed, procs):
     refs = ['TGT', '', 'ZZ-unknown-story']
     cols += drive.pool_map(drive.shard_enum_item,
                            [(MOD, m, 'mixed', K, pos, refs) for m in range(0, M + 1) for pos in (0, 1)], procs)
-    kw = dict(kinds=gen.STORY_KINDS + gen.ITEM_KINDS + gen.META_KINDS[:3], faults='some', rich=True, degenerate=True,
+    kw = dict(allow_no_slug=True, kinds=gen.STORY_KINDS + gen.ITEM_KINDS + gen.META_KINDS[:3], faults='some', rich=True, degenerate=True,
               min_stories=1)
     shards, per = (8, 400) if quick else (16, 15000)
     cols += drive.pool_map(drive.shard_hyp_steps,
